@@ -65,17 +65,17 @@ type session struct {
 	rec   [3]common.Address
 }
 
-func progAddr(k int) common.Address  { return common.BytesToAddress([]byte{0xb0, 0x28, byte(k)}) }
-func recAddr(i int) common.Address   { return common.BytesToAddress([]byte{0xec, 0x28, byte(i)}) }
-func hexb(s string) []byte           { b, _ := hex.DecodeString(s); return b }
-func pad32(b []byte) []byte          { return common.LeftPadBytes(b, 32) }
-func cat(bs ...[]byte) []byte        { return bytes.Join(bs, nil) }
-func word(v uint64) []byte           { return pad32(new(big.Int).SetUint64(v).Bytes()) }
+func progAddr(k int) common.Address    { return common.BytesToAddress([]byte{0xb0, 0x28, byte(k)}) }
+func recAddr(i int) common.Address     { return common.BytesToAddress([]byte{0xec, 0x28, byte(i)}) }
+func hexb(s string) []byte             { b, _ := hex.DecodeString(s); return b }
+func pad32(b []byte) []byte            { return common.LeftPadBytes(b, 32) }
+func cat(bs ...[]byte) []byte          { return bytes.Join(bs, nil) }
+func word(v uint64) []byte             { return pad32(new(big.Int).SetUint64(v).Bytes()) }
 func addrWord(a common.Address) []byte { return pad32(a[:]) }
 
 var (
-	sentinelA = common.HexToHash("0xa5a5a5a5a5a5a5a5a5a5a5a5a5a5a5a5a5a5a5a5a5a5a5a5a5a5a5a5a5a5a501")
-	sentinelB = common.HexToHash("0x5b5b5b5b5b5b5b5b5b5b5b5b5b5b5b5b5b5b5b5b5b5b5b5b5b5b5b5b5b5b5b02")
+	sentinelA   = common.HexToHash("0xa5a5a5a5a5a5a5a5a5a5a5a5a5a5a5a5a5a5a5a5a5a5a5a5a5a5a5a5a5a5a501")
+	sentinelB   = common.HexToHash("0x5b5b5b5b5b5b5b5b5b5b5b5b5b5b5b5b5b5b5b5b5b5b5b5b5b5b5b5b5b5b5b02")
 	corruptMark = common.HexToHash("0xc0220907c0220907c0220907c0220907c0220907c0220907c0220907c0220907")
 )
 
@@ -104,7 +104,7 @@ func recWrapper(leaf common.Address) []byte {
 	a.Push(sentinelA)
 	a.Push(0).Op(proggen.MLOAD) // [A, n]
 	a.Op(proggen.DUP1, proggen.ISZERO).JumpIf(lf)
-	a.Push(1).Op(proggen.SWAP1, proggen.SUB)       // [A, n-1]
+	a.Push(1).Op(proggen.SWAP1, proggen.SUB)      // [A, n-1]
 	a.Op(proggen.DUP1).Push(0).Op(proggen.MSTORE) // mem[0] = n-1
 	a.Push(0).Push(0).Op(proggen.CALLDATASIZE).Push(0).Push(0).Op(proggen.ADDRESS, proggen.GAS, proggen.CALL)
 	a.JumpTo(ret)
@@ -155,7 +155,9 @@ func precompileInputs(r *vrt.Run) map[uint16][][]byte {
 	for _, a := range []uint16{2, 3, 4} {
 		pool[a] = [][]byte{{}, rb(1), rb(32), rb(55), rb(56), rb(64), rb(200), make([]byte, 40)}
 	}
-	me := func(bl, el, ml int, b, e, m []byte) []byte { return cat(word(uint64(bl)), word(uint64(el)), word(uint64(ml)), b, e, m) }
+	me := func(bl, el, ml int, b, e, m []byte) []byte {
+		return cat(word(uint64(bl)), word(uint64(el)), word(uint64(ml)), b, e, m)
+	}
 	pool[5] = [][]byte{
 		me(1, 1, 1, []byte{3}, []byte{5}, []byte{7}), me(1, 1, 1, []byte{3}, []byte{5}, []byte{7, 0, 0}),
 		me(32, 32, 32, rb(32), rb(32), rb(32)), me(2, 1, 2, []byte{1, 0}, []byte{2}, nil), me(0, 0, 0, nil, nil, nil),
@@ -326,12 +328,12 @@ func tail(s string, n int) string {
 
 // probe tracer: evidence about pool reuse (no verdicts).
 type poolProbe struct {
-	capAtDepth              map[int]uintptr
-	frames, offsetFrames    int
-	pooledMem, dirtyArena   int
-	started                 map[int]bool
-	maxDepth                int
-	dirtyPoolMemory         int
+	capAtDepth            map[int]uintptr
+	frames, offsetFrames  int
+	pooledMem, dirtyArena int
+	started               map[int]bool
+	maxDepth              int
+	dirtyPoolMemory       int
 }
 
 func (p *poolProbe) hooks() *tracing.Hooks {
@@ -587,4 +589,3 @@ func trunc(s string, n int) string {
 	}
 	return s
 }
-
